@@ -104,7 +104,7 @@ namespace {
     }
 
     // id^marker^kind of every dictionary object (marker = integer /Mk or ?, kind P = /Pages node or has /Kids,
-    // C = catalog, n = other) - what the list specification needs to know about an operand
+    // C = catalog, n = other) and of every null object (kind z) - what the list specification needs to know about an operand
     std::string markers(QPDF& q) {
         std::string out;
         size_t n = q.getObjectCount();
@@ -117,6 +117,8 @@ namespace {
                 bool isC = ty.isName() && ty.getName() == "/Catalog";
                 out += std::to_string(i) + "^" + (mk.isInteger() ? std::to_string(mk.getIntValue()) : std::string("?")) + "^" +
                     (isP ? "P" : (isC ? "C" : "n")) + ",";
+            } else if (oh.isNull()) {
+                out += std::to_string(i) + "^?^z,";      // a null object: Pages::insert lets it through
             }
         }
         return out;
